@@ -175,20 +175,30 @@ def _alarm(_signum, _frame):
 
 
 class watchdog:                                     # pylint: disable=invalid-name
-    """with watchdog(seconds): ...   raises CaseTimeout inside the block if it overruns."""
+    """with watchdog(seconds): ...   raises CaseTimeout inside the block if it overruns.
+
+    The allowance is measured in *processor time of this process* (ITIMER_VIRTUAL): a case that
+    does not terminate burns processor time and is caught, while a case that merely waits for a
+    busy machine to give it a turn is not.  A wall-clock backstop at twenty times the allowance
+    (plus a minute) covers code that would block without computing."""
 
     def __init__(self, seconds=5.0):
         self.seconds = seconds
         self.old = None
+        self.old_real = None
 
     def __enter__(self):
-        self.old = signal.signal(signal.SIGALRM, _alarm)
-        signal.setitimer(signal.ITIMER_REAL, self.seconds)
+        self.old = signal.signal(signal.SIGVTALRM, _alarm)
+        self.old_real = signal.signal(signal.SIGALRM, _alarm)
+        signal.setitimer(signal.ITIMER_VIRTUAL, self.seconds)
+        signal.setitimer(signal.ITIMER_REAL, 20 * self.seconds + 60)
         return self
 
     def __exit__(self, *exc):
+        signal.setitimer(signal.ITIMER_VIRTUAL, 0)
         signal.setitimer(signal.ITIMER_REAL, 0)
-        signal.signal(signal.SIGALRM, self.old)
+        signal.signal(signal.SIGVTALRM, self.old)
+        signal.signal(signal.SIGALRM, self.old_real)
         return False
 
 
